@@ -1555,6 +1555,40 @@ fn rand_op(rng: &mut Rng, deletes: bool, reexports: bool, pos: usize) -> Op {
     }
 }
 
+/// A WIDE import-heavy sequence: 6..=9 modules, 10..=30 imports among them (diamonds, long
+/// chains, attempts to close cycles several imports below a shared module), a few rules and
+/// export declarations.
+fn gen_wide_ops(rng: &mut Rng) -> Vec<Op> {
+    let k = 6 + rng.below(4);
+    let mods: Vec<String> = (0..k).map(|i| if i == 0 && rng.bool() { s("MAIN") } else { format!("M{}", i) }).collect();
+    let mut ops: Vec<Op> = Vec::new();
+    let mut order: Vec<usize> = (0..k).collect();
+    rng.shuffle(&mut order);
+    for i in &order {
+        if mods[*i] != "MAIN" {
+            ops.push(Op::Create(mods[*i].clone()));
+        }
+    }
+    for m in &mods {
+        if rng.chance(1, 3) {
+            ops.push(Op::AddRule(m.clone(), pick_s(rng, &NAMES)));
+        }
+        if rng.chance(1, 4) {
+            ops.push(Op::Exports(m.clone(), if rng.bool() { Exp::All } else { Exp::None }));
+        }
+    }
+    let n = 10 + rng.below(21);
+    for _ in 0..n {
+        let to = rng.below(k);
+        // mostly "downwards" (towards higher numbers), so that long acyclic structures build up
+        // before an upward import tries to close a cycle
+        let from = if rng.chance(3, 4) { (to + 1 + rng.below(k - 1)).min(k - 1).max(to) } else { rng.below(k) };
+        let from = if from == to { (to + 1) % k } else { from };
+        ops.push(Op::Import { to: mods[to].clone(), from: mods[from].clone(), ty: *rng.pick(&TYPES), pat: if rng.chance(2, 3) { s("*") } else { pick_s(rng, &PATTERNS) }, re: None });
+    }
+    ops
+}
+
 struct Dfs<'a> {
     alphabet: &'a [Op],
     names: Vec<String>,
@@ -1762,6 +1796,10 @@ impl Check for C18 {
                 }
                 for pos in 0..n {
                     ops.push(rand_op(rng, deletes, reexports, if pre == 0 { pos } else { 9 }));
+                }
+                if rng.chance(1, 10) {
+                    ops = gen_wide_ops(rng);
+                    t.inc("random_wide_cases(6..=9 modules, 10..=30 imports)");
                 }
                 t.inc(match (deletes, reexports) {
                     (false, false) => "random_cases_without_deletes_and_re_exports",
